@@ -458,6 +458,58 @@ def part_slow(args):
     return n, res, {}
 
 
+def part_special_ids(args):
+    """header values that mean something elsewhere in SOME/IP (the SD service and method ids, the ids of the TCP "magic
+    cookie" messages and near misses): to a service endpoint they are ordinary field values - alone in a datagram, in
+    front of and behind an ordinary request; also for a service whose own id is 0xFFFF"""
+    own_sid, own_major = args
+    loop = VLoop().install()
+    res = []
+    n = 0
+    try:
+        for own in (own_sid, 0xFFFF):
+            s = make(loop, own, own_major)
+            plain = (own, 1, 0x31, 0x32, own_major, 0x00, 0, b"pl")
+            for service, method, (client, session), mtype, where in itertools.product(
+                    (0xFFFF, own_sid), (0x0000, 0x8000, 0x8100, 0x0001), ((0xDEAD, 0xBEEF), (0xDEAD, 0xBEEE), (0xBEEF, 0xDEAD), (0xFFFF, 0xFFFF)),
+                    (0x00, 0x01, 0x02, 0x80), ("alone", "in front", "behind")):
+                f = (service, method, client, session, own_major, mtype, 0, b"")
+                seq = {"alone": [f], "in front": [f, plain], "behind": [plain, f]}[where]
+                s.transport.sent.clear()
+                s.calls.clear()
+                exc = None
+                try:
+                    s.datagram_received(b"".join(refcodec.enc_someip(*g) for g in seq), ADDR, False)
+                except Exception as e:  # noqa: BLE001
+                    exc = type(e).__name__
+                if loop._ready or loop._scheduled:
+                    loop.settle()
+                n += 1
+                want, handlers = [], []
+                for g in seq:
+                    exp, h = expected(own, own_major, g, False)
+                    if exp is not None:
+                        want.append((g[0], g[1], g[2], g[3], g[4]) + exp)
+                    if h is not None:
+                        handlers.append(h)
+                got = []
+                for _, _, data, addr in s.transport.sent:
+                    msgs, err, tail = refcodec.dec_someip_all(data)
+                    got += [(m["service"], m["method"], m["client"], m["session"], m["iface"], m["mtype"], m["code"], m["payload"])
+                            for m in msgs]
+                case = dict(own=(own, own_major), special=[list(g[:7]) + [g[7].hex()] for g in seq])
+                if exc:
+                    res.append(("no-exception", f"special-ids-{exc}", f"datagram_received raised {exc}", case))
+                elif got != want or [c[0] for c in s.calls] != handlers or any(x[3] != ADDR for x in s.transport.sent):
+                    res.append(("one-reply", "special-ids", f"message {f[:7]} {where}: replies {got!r:.200} expected {want!r:.200}; "
+                                f"handlers {[c[0] for c in s.calls]} expected {handlers}", case))
+                if len(res) > 40:
+                    return n, res, {}
+    finally:
+        loop.dispose()
+    return n, res, {}
+
+
 def part_long(args):
     """one datagram that holds as many requests as fit (16-byte messages up to the UDP payload limit): every one
     gets its own reply, in order"""
@@ -501,6 +553,10 @@ def part_long(args):
     return n, res, {}
 
 
+def own_sid_of(ctx):
+    return 0x1000 + ctx.seed % 0xE000
+
+
 def check(ctx):
     own_sid = 0x1000 + ctx.seed % 0xE000
     own_major = 1 + ctx.seed % 200
@@ -509,6 +565,7 @@ def check(ctx):
     out = core.pmap(part, parts, 1)
     out += core.pmap(part_history, [(own_sid, own_major)], 1)
     out += core.pmap(part_long, [(own_sid, own_major)], 1)
+    out += core.pmap(part_special_ids, [(own_sid, own_major)], 1)
     out += core.pmap(part_slow, [(own_sid, own_major, (0.12, 1.05) if not ctx.thorough else (0.12, 0.55, 1.05, 5.1))], 1)
     out += core.pmap(part_reentrant, [(own_sid, own_major, 4 if ctx.thorough else 3)], 1)
     out += core.pmap(part_sequences, [(own_sid, own_major, 4 if ctx.thorough else 3, ws) for ws in (False, True)], 1)
@@ -562,6 +619,13 @@ def replay(ctx, body):
             loop.dispose()
         for r in res:
             print("FAILS (last message of the sequence):", r)
+        return 1 if res else 0
+    if "special" in case:
+        import json
+        _, res, _ = part_special_ids((own_sid_of(ctx), own[1]))
+        res = [r for r in res if json.dumps(r[3]["special"]) == json.dumps(case["special"]) and list(r[3]["own"]) == list(own)]
+        for r in res:
+            print("FAILS:", r[:3])
         return 1 if res else 0
     if "slow" in case:
         _, res, _ = part_slow((own[0], own[1], (case["slow"][0],)))
